@@ -40,5 +40,17 @@ PROPS["C05"] = dict(
     assumptions=["internal/ref/amf0ref computes the encoded length of a value correctly", "null/undefined are identified by their one-byte encoding (types are unexported)"],
 )
 
+PROPS["C06"] = dict(
+    pkg="c06", level="exploration",
+    rule="differential against an independent AMF0 codec written from the specification, in both directions (library bytes -> reference decoder; reference encoder -> library), "
+         "plus all 256 marker bytes x 8 bodies x {top level, nested} enumerated; per-check rules under coverage.checks",
+    quick=dict(timeout=600), thorough=dict(shards=16, timeout=3000),
+    technique="property-based differential testing (rapid) against an independent specification codec; exhaustive enumeration of marker bytes",
+    level_text="Random exploration of value trees in both directions with shrinking, and a complete enumeration of the marker byte (256 values) over a fixed set of bodies. "
+               "Non-empty strict arrays are excluded from the random part while the known finding on their layout is open.",
+    level_note="Trusts internal/ref/amf0ref as a faithful reading of the AMF0 specification (ECMA associative count is a hint: the decoder reads to the end marker, as FFmpeg/librtmp do).",
+    assumptions=["internal/ref/amf0ref follows the AMF0 specification sections 2.2-2.12", "ECMA array count is advisory"],
+)
+
 NOT_APPLICABLE = {}
 HOOK_COMMITS = []
